@@ -75,6 +75,16 @@ class ConcreteEngine:
         except ValueError:
             raise Unrepresentable(name) from None
 
+    def rational_over(self, name, den, flav='frac'):
+        n = int(Fraction(self.model.get(name, 1)))
+        v = Fraction(n, den)
+        if flav == 'frac':
+            return v
+        try:
+            return Decimal(v)
+        except ValueError:
+            raise Unrepresentable(name) from None
+
     def integer(self, name, lo=None, hi=None):
         if name not in self.model:
             v = Fraction(lo if lo is not None else (hi if hi is not None else 1))
